@@ -36,11 +36,11 @@ func verifHarnessC13() {
 		switch ops[verifChoice("op", len(ops))] {
 		case vOpPut:
 			verifSetTag("pd" + strconv.Itoa(step))
-			ki := verifChoice("ki", len(kp.keys))
+			ki := verifChoice("ki", kp.hot())
 			verifAssert(db.Put(kp.keys[ki], verifValue("v")) == nil, "C13.put-err")
 		case vOpDelete:
 			verifSetTag("pd" + strconv.Itoa(step))
-			ki := verifChoice("ki", len(kp.keys))
+			ki := verifChoice("ki", kp.hot())
 			verifAssert(db.Delete(kp.keys[ki]) == nil, "C13.delete-err")
 		case vOpSync:
 			verifSetTag("sync")
@@ -54,7 +54,7 @@ func verifHarnessC13() {
 			b := db.NewBatch(BatchOptions{Sync: verifParam("bsync") == 1})
 			n := 1 + verifChoice("bops", 2)
 			for i := 0; i < n; i++ {
-				ki := verifChoice("bki", len(kp.keys))
+				ki := verifChoice("bki", kp.hot())
 				if verifChoice("bop", 2) == 0 {
 					verifAssert(b.Put(kp.keys[ki], verifValue("bv")) == nil, "C13.bput-err")
 				} else {
